@@ -1,5 +1,6 @@
 //! skasim: deterministic simulation harness for bacpop/ska.rust (see /verif/DESIGN.md)
 mod child;
+mod damage;
 mod framework;
 mod gen;
 mod model;
@@ -44,6 +45,10 @@ macro_rules! with_workload {
                 let $w = persist::PersistWorkload;
                 $body
             }
+            "C19" => {
+                let $w = damage::DamageWorkload { base: framework::verif_seed() };
+                $body
+            }
             _ => $else,
         }
     };
@@ -56,6 +61,7 @@ fn plan_for(id: &str) -> (u64, u64, u64, u64) {
         "C06" | "C07" | "C08" | "C13" | "C14" => (1500, 80000, 300, 2400),
         "C10" => (1000, 50000, 300, 2400),
         "C09" => (800, 40000, 300, 2400),
+        "C19" => (0, 0, 600, 3000),
         _ => (100, 1000, 300, 2400),
     }
 }
@@ -84,7 +90,16 @@ fn main() {
                 wall_cap_s: if q { cap_q } else { cap_t },
             };
             let (pq, pt, cq, ct) = plan_for(&id);
-            with_workload!(id.as_str(), w => framework::check(&w, tier, plan(pq, pt, cq, ct)), {
+            with_workload!(id.as_str(), w => {
+                use framework::Workload;
+                let mut pl = plan(pq, pt, cq, ct);
+                if runs_env.is_none() {
+                    if let Some(n) = w.runs_needed(tier) {
+                        pl.runs = n;
+                    }
+                }
+                framework::check(&w, tier, pl)
+            }, {
                 eprintln!("no check for {id}");
                 2
             })
